@@ -367,7 +367,7 @@ func (r *Rng) xmlDoc(g *XGen) *XNode {
 		name := r.Pick(g.Names)
 		switch r.Intn(4) {
 		case 0:
-			root.Kids = append(root.Kids, &XNode{Kind: 'N', Name: name, Kids: []*XNode{{Kind: 'T', Text: r.bigString(66000 + r.Intn(9000))}}})
+			root.Kids = append(root.Kids, &XNode{Kind: 'N', Name: name, Kids: []*XNode{{Kind: 'T', Text: r.bigString(r.bigSize())}}})
 		case 1:
 			for i := 0; i < 300+r.Intn(400); i++ {
 				root.Kids = append(root.Kids, &XNode{Kind: 'N', Name: r.Pick([]string{name, "zz"}), Kids: []*XNode{{Kind: 'T', Text: fmt.Sprintf("w%d", i)}}})
